@@ -18,7 +18,9 @@ MANIFEST = {
             "is ever opened per request id, the request future is started at most once and only on that substream, "
             "substream ids are never shared; every inbound id is handed to the user at most once, exactly when its read "
             "succeeded while registered; every ResponseReceived in the log carries a payload the responder wrote on the "
-            "one substream opened for that request id (ghost maps rid -> substream -> wire content); inbound bound; the "
+            "one substream opened for that request id (ghost maps rid -> substream -> wire content); every started request "
+            "future writes exactly one payload, the main one or the fallback one iff the substream was negotiated with the "
+            "request's own fallback protocol; inbound bound; the "
             "exact window in which a cancel takes effect. All full strength, by induction over all histories; the "
             "oracle checks the same statements on the implementation on every run. Tied to the code "
             "by a seeded differential run of the real protocol + handle (injected transport events, in-memory yamux "
@@ -360,6 +362,8 @@ def oracle(case, out):
     outstanding = 0
     nsend = 0
     ninb = 0
+    now = 0            # logical time
+    opened_at = {}     # "rK" -> logical time its substream was handed to the protocol
     for i, op in enumerate(case):
         if i >= len(out):
             break
@@ -404,6 +408,7 @@ def oracle(case, out):
         elif t[0] == "ev" and t[1] == "subopen" and res.startswith("opened:"):
             k = t[2]
             opened[k] = opened.get(k, 0) + 1
+            opened_at.setdefault(k, now)
             if opened[k] > 1:
                 v("responder-saw-twice", f"a second substream was opened for request {k}", i, request=k)
             view = res[len("opened:"):]
@@ -473,6 +478,14 @@ def oracle(case, out):
                       f"{show(inb[k]['len'], inb[k]['fill'])}", i)
                 if k not in inb:
                     v("inbound-unknown", f"RequestReceived {e!r} for a substream the remote never opened", i)
+        if t[0] == "advance" and len(t) == 2 and res == "ok" and t[1].isdigit():
+            # a silent peer: the request future gives up after at most one timeout for the send and one
+            # for the response, whatever the far end does
+            now += int(t[1])
+            for k, at in opened_at.items():
+                if k in reqs and k not in cancelled and not terminals.get(k) and now - at >= 2 * cfg["timeout"]:
+                    v("no-timeout", f"request {k} got its substream at time {at}, it is now {now} (timeout {cfg['timeout']}) "
+                      f"and it has neither a response nor a failure", i, request=k)
         if cfg["inmax"] is not None and outstanding > cfg["inmax"]:
             v("inbound-bound", f"{outstanding} inbound requests wait for the user's answer, limit {cfg['inmax']}", i)
     return bad
